@@ -15,6 +15,8 @@ PY
 }
 # where does the demo go? first line comment names a directory; fall back to grepping the package clause
 DEMO="$M/demo_test.go"
+# a demonstration that needs the race detector says so in the first lines of its notes
+if [ -z "${DEMO_RACE:-}" ] && head -3 "$M/notes.md" 2>/dev/null | grep -q '\bRACE\b'; then DEMO_RACE=1; fi
 [ -f "$DEMO" ] || { res applies=unknown reason=no-demo; exit 1; }
 DIR=$(head -5 "$DEMO" | grep -oE '(neat|experiment|examples)[A-Za-z0-9_/]*' | head -1)
 if [ -z "$DIR" ] || [ ! -d "$WT/$DIR" ]; then
